@@ -22,7 +22,7 @@ Ltac chan_lia := unfold c_req, c_errc, c_done, c_int, c_results in *; lia.
 
 Lemma ended_is_End l : beh l = PEnd -> exists r, l = End r.
 Proof.
-  destruct l as [rest| |i|i id|i id|i id| | | | |v| | |v| |v| |r v|r]; simpl; try discriminate.
+  destruct l as [rest| |i|i id|i id|i id| | | | |v| | |v| |v| |r v|r|srest]; simpl; try discriminate.
   - destruct rest as [|[id b] r]; discriminate.
   - eauto.
 Qed.
@@ -36,9 +36,9 @@ Proof. unfold good_ids. simpl. destruct b; simpl; [|reflexivity]. unfold filter.
 (* ------------------------------------------------------------------ conservation (two token systems) *)
 Lemma engine_conserving : conserving beh weight tok_val tok_ev.
 Proof.
-  intros l. destruct l as [rest| |i|i id|i id|i id| | | | |v| | |v| |v| |r v|r]; simpl; try done.
+  intros l. destruct l as [rest| |i|i id|i id|i id| | | | |v| | |v| |v| |r v|r|srest]; simpl; try done.
   - destruct rest as [|[id b] r]; simpl; [done|].
-    intros g k Hin. alts Hin; simpl; [|done]. rewrite ids_of_cons. multiset_solver.
+    intros g k Hin. alts Hin; simpl; [|done|reflexivity]. rewrite ids_of_cons. multiset_solver.
   - intros g k Hin. alts Hin; simpl; [done|]. split; [|multiset_solver].
     intros v. destruct v as [id b|id|id]; simpl; try multiset_solver. destruct b; simpl; multiset_solver.
   - intros g k Hin. alts Hin; simpl; [done|]. multiset_solver.
@@ -51,13 +51,14 @@ Proof.
   - intros g k Hin. alts Hin; simpl. split; [|multiset_solver]. intros v0. multiset_solver.
   - intros o. simpl. multiset_solver.
   - intros g k Hin. apply elem_of_nil in Hin. destruct Hin.
+  - intros g k Hin. apply elem_of_nil in Hin. destruct Hin.
 Qed.
 
 Lemma engine_conserving_owed : conserving beh owed owed_val owed_ev.
 Proof.
-  intros l. destruct l as [rest| |i|i id|i id|i id| | | | |v| | |v| |v| |r v|r]; simpl; try done.
+  intros l. destruct l as [rest| |i|i id|i id|i id| | | | |v| | |v| |v| |r v|r|srest]; simpl; try done.
   - destruct rest as [|[id b] r]; simpl; [done|].
-    intros g k Hin. alts Hin; simpl; [|done]. rewrite good_ids_cons. destruct b; multiset_solver.
+    intros g k Hin. alts Hin; simpl; [|done|reflexivity]. rewrite good_ids_cons. destruct b; multiset_solver.
   - intros g k Hin. alts Hin; simpl; [done|]. split; [|multiset_solver].
     intros v. destruct v as [id b|id|id]; simpl; try multiset_solver. destruct b; simpl; multiset_solver.
   - intros g k Hin. alts Hin; simpl; [done|]. multiset_solver.
@@ -69,6 +70,7 @@ Proof.
   - intros o. simpl. multiset_solver.
   - intros g k Hin. alts Hin; simpl. split; [|multiset_solver]. intros v0. multiset_solver.
   - intros o. simpl. multiset_solver.
+  - intros g k Hin. apply elem_of_nil in Hin. destruct Hin.
   - intros g k Hin. apply elem_of_nil in Hin. destruct Hin.
 Qed.
 
@@ -136,7 +138,7 @@ Lemma engine_disciplined : disciplined beh role_of fin live.
 Proof.
   intros l. split.
   - intros l' Hc. unfold conts in Hc.
-    destruct l as [rest| |i|i id|i id|i id| | | | |v| | |v| |v| |r v|r]; simpl in Hc.
+    destruct l as [rest| |i|i id|i id|i id| | | | |v| | |v| |v| |r v|r|srest]; simpl in Hc.
     + destruct rest as [|[id b] r]; simpl in Hc; [subst; reflexivity|].
       destruct Hc as (g & k & rr & Hin & ->). alts Hin; reflexivity.
     + subst; reflexivity.
@@ -158,7 +160,8 @@ Proof.
     + subst; reflexivity.
     + destruct Hc as (g & k & rr & Hin & _). apply elem_of_nil in Hin. destruct Hin.
     + destruct Hc.
-  - destruct l as [rest| |i|i id|i id|i id| | | | |v| | |v| |v| |r v|r]; simpl.
+    + destruct Hc as (g & k & rr & Hin & _). apply elem_of_nil in Hin. destruct Hin.
+  - destruct l as [rest| |i|i id|i id|i id| | | | |v| | |v| |v| |r v|r|srest]; simpl.
     + destruct rest as [|[id b] r]; simpl; [pclose|psel].
     + pclose.
     + psel.
@@ -178,6 +181,7 @@ Proof.
     + split; [set_solver|tauto].
     + intros g k Hin. apply elem_of_nil in Hin. destruct Hin.
     + tauto.
+    + intros g k Hin. apply elem_of_nil in Hin. destruct Hin.
 Qed.
 
 Lemma layout_NoDup : NoDup (layout W).
@@ -241,7 +245,7 @@ Proof.
     by (rewrite <- Hroles; unfold roles_of; rewrite list_lookup_fmap, Hpj; done).
   assert (Hsame : role_of lj = role_of l -> False).
   { intros Heq. apply Hne. symmetry. eapply same_role_same_index; eauto. }
-  destruct l as [rest| |i0|i0 id|i0 id|i0 id| | | | |v| | |v| |v| |r v|r]; simpl in Hbl; try discriminate.
+  destruct l as [rest| |i0|i0 id|i0 id|i0 id| | | | |v| | |v| |v| |r v|r|srest]; simpl in Hbl; try discriminate.
   - destruct rest as [|[id b] r]; [|discriminate]. injection Hbl as <- <-.
     destruct lj; simpl in Hlive; try done; try (apply Hsame; reflexivity); try (destruct Hlive); chan_lia.
   - injection Hbl as <- <-.
@@ -301,7 +305,7 @@ Definition PV (c : nat) (v : val) : Prop :=
 
 Definition PL (l : loc) : Prop :=
   match l with
-  | Src rest => forall x, x ∈ rest -> x ∈ reqs
+  | Src rest | SrcStalled rest => forall x, x ∈ rest -> x ∈ reqs
   | WErr _ id => errfate id
   | WScan _ id => has id false
   | WPut _ id => posfate id
@@ -332,11 +336,13 @@ Proof. intros [[H _]|[[H _]|[[H|H] _]]]; chan_lia. Qed.
 
 Lemma engine_typed_beh : typed_beh beh PL PV PE.
 Proof.
-  intros l HPL. destruct l as [rest| |i|i id|i id|i id| | | | |v| | |v| |v| |r v|r]; simpl in *; try done.
+  intros l HPL. destruct l as [rest| |i|i id|i id|i id| | | | |v| | |v| |v| |r v|r|srest]; simpl in *; try done.
   - destruct rest as [|[id b] r]; simpl; [done|].
-    intros g k Hin. alts Hin; simpl; [|done]. split.
-    + left. split; [reflexivity|]. exists id, b. split; [reflexivity|]. apply HPL. left.
-    + intros x Hx. apply HPL. right. assumption.
+    intros g k Hin. alts Hin; simpl; [| |exact HPL].
+    * split.
+      -- left. split; [reflexivity|]. exists id, b. split; [reflexivity|]. apply HPL. left.
+      -- intros x Hx. apply HPL. right. assumption.
+    * intros x Hx. apply HPL. right. assumption.
   - intros g k Hin. alts Hin; simpl; [done|]. split; [|done].
     intros v Hv. apply PV_req in Hv. destruct Hv as (id & b & -> & Hhas). destruct b; simpl; [left|]; assumption.
   - intros g k Hin. alts Hin; simpl; [done|]. split; [|done]. right. left. split; [reflexivity|]. exists id. auto.
@@ -351,6 +357,7 @@ Proof.
   - intros o. split; [done|]. constructor; [assumption|constructor].
   - intros g k Hin. alts Hin; simpl. split; [|done]. intros v Hv. apply PV_errc. assumption.
   - intros o. split; [done|]. constructor; [assumption|constructor].
+  - intros g k Hin. apply elem_of_nil in Hin. destruct Hin.
 Qed.
 
 Lemma init_typed cap : typed PL PV PE (init W cap reqs).
@@ -379,7 +386,7 @@ Definition needs (l : loc) : list nat :=
 
 Lemma engine_needs_beh : needs_beh beh needs.
 Proof.
-  intros l. destruct l as [rest| |i|i id|i id|i id| | | | |v| | |v| |v| |r v|r]; simpl; try done.
+  intros l. destruct l as [rest| |i|i id|i id|i id| | | | |v| | |v| |v| |r v|r|srest]; simpl; try done.
   - destruct rest as [|[id b] r]; simpl; [done|]. intros g k Hin. alts Hin; simpl; done.
   - intros g k Hin. alts Hin; simpl; [done|]. split; [|set_solver].
     intros v. destruct v as [id b|id|id]; simpl; try done. destruct b; done.
@@ -390,6 +397,7 @@ Proof.
   - intros g k Hin. alts Hin; simpl; done.
   - intros g k Hin. alts Hin; simpl; [done|]. split; [done|set_solver].
   - intros g k Hin. alts Hin; simpl. split; [done|set_solver].
+  - intros g k Hin. apply elem_of_nil in Hin. destruct Hin.
   - intros g k Hin. apply elem_of_nil in Hin. destruct Hin.
 Qed.
 
@@ -404,14 +412,14 @@ Definition has_closed (l : loc) (c : nat) : Prop :=
 
 Lemma engine_closers_beh : closers_beh beh has_closed.
 Proof.
-  intros l. destruct l as [rest| |i|i id|i id|i id| | | | |v| | |v| |v| |r v|r]; simpl; try done.
+  intros l. destruct l as [rest| |i|i id|i id|i id| | | | |v| | |v| |v| |r v|r|srest]; simpl; try done.
   all: try (destruct rest as [|[id b] r]; simpl; try done).
   all: split; [first [reflexivity|left; reflexivity|right; reflexivity]|intros c' Hc'; try done; subst; auto].
 Qed.
 
 Lemma engine_did_beh : did_beh beh has_closed.
 Proof.
-  intros l. destruct l as [rest| |i|i id|i id|i id| | | | |v| | |v| |v| |r v|r]; simpl; try done.
+  intros l. destruct l as [rest| |i|i id|i id|i id| | | | |v| | |v| |v| |r v|r|srest]; simpl; try done.
   - destruct rest as [|[id b] r]; simpl; [intros c' ->; left; reflexivity|].
     intros g k r0 c Hin. alts Hin; simpl; done.
   - intros c' ->. left. reflexivity.
@@ -427,6 +435,7 @@ Proof.
   - intros c' ->. left. reflexivity.
   - intros g k r0 c Hin. alts Hin; simpl; try done. destruct r0; done.
   - intros g k r0 c Hin. alts Hin; simpl. destruct r0; done.
+  - intros g k r0 c Hin. apply elem_of_nil in Hin. destruct Hin.
   - intros g k r0 c Hin. apply elem_of_nil in Hin. destruct Hin.
 Qed.
 
